@@ -293,6 +293,9 @@ def run(ctx):
                     ctx.check(okg, "R17.4", f, "early-answer:%s@%s" % (fmt(val), e.get("ln")), why, (f, e.get("ln")), why_ok=g)
             else:
                 ctx.broken("R17.4", f, "prefix-idiom", "starts_with is %s: not one of the recognised position-0 idioms" % r, f)
+    ctx.rule("R17.5", "split / join / replace_all / starts_with keep no function-local static / thread_local object (stream formatting state or text of one call or element cannot reach another)")
+    from .common import rule_no_static_state
+    rule_no_static_state(ctx, "R17.5", lambda f: f.file.endswith("lang/string.hpp"), "stream state (flags, fill, precision) or text left by one element or call is seen by the next", minimum=4)
     ctx.assume("the split/join inverse law, piece counts and the full output equations are statements about runtime strings: not decided")
     ctx.trust("p = s.find(x, from): p == npos or from <= p (Appendix D.2)")
 
